@@ -15,7 +15,8 @@ Record code_ok (P : program) (start : N -> Prop) : Prop := mkCodeOk {
               forall raw, op_u32 P (ip + 1) = Some raw ->
                 (0 <= u32_to_i32 raw)%Z /\ ipok P start (Z.to_N (u32_to_i32 raw));
   co_labels : forall h pos, assoc h (p_labels P) = Some pos -> ipok P start pos;
-  co_last : ipok P start (last_pos P)
+  co_last : ipok P start (last_pos P);
+  co_zero : ipok P start 0
 }.
 
 Definition scalar (v : value) : Prop := match v with VObj _ => False | _ => True end.
@@ -96,9 +97,6 @@ Proof.
   apply pv_push_next; [exact I2 | rewrite Hc2, Hc1; exact Hc | exact Hip | apply scalar_ok; eapply Hop; eauto].
 Qed.
 
-(* natives: proved in C04VmProofs6.v under the contract of [reenter] *)
-Hypothesis native_pres : forall h ip s, vm_inv s -> ipok ip -> res_ok s (native_step F P reenter h ip s).
-
 Hypothesis Hcode : code_ok P start.
 
 Section Instr.
@@ -106,6 +104,10 @@ Variable ip0 : N.
 Variable s : state.
 Hypothesis Hi : vm_inv0 s.
 Hypothesis Hc : st_calls s <> [].
+(* natives (a native function value called by CallFunction): proved in C04VmProofs6.v under the contract of
+   [reenter] *)
+Hypothesis native_pres : forall h ip s1, vm_inv s1 -> ipok ip -> st_heap s1 = st_heap s ->
+  (exists a, hget (st_heap s) a = Some (ONative h)) -> res_ok s1 (native_step F P reenter h ip s1).
 
 Lemma top_frame_ok : exists fr rest, st_calls s = fr :: rest /\ frame_ok s fr.
 Proof.
@@ -332,7 +334,7 @@ Proof.
     eapply (co_labels P start Hcode); eauto. }
   destruct o; cbv zeta; try apply Herr.
   - apply Hgo. left; reflexivity.
-  - apply (res_ok_mono s s1); [rewrite Hh; lia|]. apply native_pres; [split; [exact I1 | rewrite Hca; exact Hc] | exact Hip].
+  - apply (res_ok_mono s s1); [rewrite Hh; lia|]. apply native_pres; [split; [exact I1 | rewrite Hca; exact Hc] | exact Hip | exact Hh | exists a; rewrite <- Hh; exact Ea].
   - apply Hgo. right. eauto 6.
 Qed.
 
